@@ -1,5 +1,5 @@
 import numpy as np
-from scipy.linalg import toeplitz
+from scipy.linalg import toeplitz, circulant
 from scipy.sparse import csc_matrix
 from scipy.integrate import quad_vec
 from scipy.signal import fftconvolve
@@ -444,8 +444,9 @@ def _getCirculantMatrix(dim, PSF, PSF_param):
             raise ValueError("kernel must be a 1D array of length dim")
         h = np.roll(PSF, -int(dim/2))
         #h = h/np.linalg.norm(h)**2 # TODO: Normalize
-        hflip = np.concatenate((h[0:1], np.flipud(h[1:])))
-        return toeplitz(hflip,h) 
+        # Circulant matrix with h as first COLUMN: A[i,j] = PSF[(i-j+dim/2) mod dim], the periodic convolution
+        # with the PSF (same forward model as the non-legacy representation for the same array)
+        return circulant(h)
 
     dim_half = dim/2
     grid = np.arange(dim_half+1)/dim
